@@ -464,6 +464,21 @@ func c16Scens(tier string) []e1Scen {
 			}
 		}
 	}
+	// a multivariant request that is already pending when the first units arrive (it waits for content): the parameter sets
+	// it reports are those in force when it is answered - every word over {key frame, key frame with new parameter sets,
+	// ordinary frame}, the switch before or after the content becomes available
+	for _, vk := range [][2]string{{"fmp4", "h264"}, {"ll", "h264"}, {"mpegts", "h264"}, {"fmp4", "h265"}, {"fmp4", "av1"}, {"fmp4", "vp9"}, {"ll", "av1"}} {
+		cfg := mcfg(vk[0], false, 3, vk[1], "aac44")
+		if vk[0] == "ll" {
+			cfg.SegCount = 7
+		}
+		d := 5
+		if tier == "thorough" {
+			d = 7
+		}
+		alpha := []sym{{T: 0, D: "S", K: "R"}, {T: 0, D: "S", K: "P"}, {T: 0, D: "f", K: "n"}}
+		out = append(out, e1Shard(e1Scen{Prop: "C16", Cfg: cfg, Alpha: alpha, Depth: d, Mode: "tree", Pending: true, Name: "pending-index-tree"}, 1)...)
+	}
 	// parameter sets that differ in one component only: CODECS / RESOLUTION follow exactly what changed
 	for _, kd := range paramDeltas() {
 		cfg := mcfg("fmp4", false, 3, kd[0])
